@@ -243,6 +243,68 @@ func project(v reflect.Value, inst string, out map[string]any) {
 	}
 }
 
+// renderProfile writes the document items as profile text; emit (if not nil) gets every item with the line it starts on
+func renderProfile(beh []Step, emit func(o map[string]any)) string {
+	trailing := []string{"", " # trailing ${x} \"", " // trailing }", " /* trailing { */"}
+	eqs := []string{" = ", "=", "   =\t"}
+	var sb strings.Builder
+	line, depth := 1, 0
+	for _, ev := range beh {
+		o := map[string]any{}
+		for k, v := range ev {
+			o[k] = v
+		}
+		o["line"] = line
+		ind := strings.Repeat("  ", depth)
+		lay := ev.Int("lay")
+		text := ""
+		labels := func() string {
+			s := ""
+			ls, _ := ev["labels"].([]any)
+			for _, l := range ls {
+				s += " " + renderSv(l.(map[string]any), ind)
+			}
+			return s
+		}
+		switch ev.Str("e") {
+		case "open":
+			text = ind + ev.Str("t") + labels() + []string{" {", "{", "   {", " { // opened"}[lay%4] + "\n"
+			depth++
+		case "empty":
+			text = ind + ev.Str("t") + labels() + []string{" {}", "{}", " { }", " {} # nothing"}[lay%4] + "\n"
+		case "close":
+			depth--
+			if depth < 0 {
+				depth = 0
+			}
+			text = strings.Repeat("  ", depth) + "}\n"
+		case "attr":
+			sv := ev["sv"].(map[string]any)
+			val := renderSv(sv, ind)
+			tc := trailing[(lay/3)%4]
+			if sv["f"] == "h" {
+				tc = ""
+			}
+			text = ind + ev.Str("name") + eqs[lay%3] + val + tc + "\n"
+		case "trivia":
+			text = ind + map[string]string{"hash": "# a comment", "slashes": "// another comment", "block": "/* block comment */", "blank": "",
+				"tricky": "# Host = \"x\" { ${ %{ } /* \\"}[ev.Str("k")] + "\n"
+			if ev.Str("k") == "blank" {
+				text = "\n"
+			}
+		case "end":
+		default:
+			panic("harness-error: document item " + ev.Str("e"))
+		}
+		sb.WriteString(text)
+		line += strings.Count(text, "\n")
+		if emit != nil {
+			emit(o)
+		}
+	}
+	return sb.String()
+}
+
 func RunProfile(behs [][]Step, tr *Trace, env Env, sum *Summary) {
 	seen := map[string]bool{"Bogus": true}
 	schemaNames(reflect.TypeOf(profile.HavocConfig{}), seen)
@@ -257,64 +319,9 @@ func RunProfile(behs [][]Step, tr *Trace, env Env, sum *Summary) {
 	dir, err := os.MkdirTemp(env.Scratch, "prof")
 	must(err)
 	defer os.RemoveAll(dir)
-	trailing := []string{"", " # trailing ${x} \"", " // trailing }", " /* trailing { */"}
-	eqs := []string{" = ", "=", "   =\t"}
 	for bi, beh := range behs {
 		tr.Emit(map[string]any{"ev": "Reset"})
-		var sb strings.Builder
-		line, depth := 1, 0
-		for _, ev := range beh {
-			o := map[string]any{}
-			for k, v := range ev {
-				o[k] = v
-			}
-			o["line"] = line
-			ind := strings.Repeat("  ", depth)
-			lay := ev.Int("lay")
-			text := ""
-			labels := func() string {
-				s := ""
-				ls, _ := ev["labels"].([]any)
-				for _, l := range ls {
-					s += " " + renderSv(l.(map[string]any), ind)
-				}
-				return s
-			}
-			switch ev.Str("e") {
-			case "open":
-				text = ind + ev.Str("t") + labels() + []string{" {", "{", "   {", " { // opened"}[lay%4] + "\n"
-				depth++
-			case "empty":
-				text = ind + ev.Str("t") + labels() + []string{" {}", "{}", " { }", " {} # nothing"}[lay%4] + "\n"
-			case "close":
-				depth--
-				if depth < 0 {
-					depth = 0
-				}
-				text = strings.Repeat("  ", depth) + "}\n"
-			case "attr":
-				sv := ev["sv"].(map[string]any)
-				val := renderSv(sv, ind)
-				tc := trailing[(lay/3)%4]
-				if sv["f"] == "h" {
-					tc = ""
-				}
-				text = ind + ev.Str("name") + eqs[lay%3] + val + tc + "\n"
-			case "trivia":
-				text = ind + map[string]string{"hash": "# a comment", "slashes": "// another comment", "block": "/* block comment */", "blank": "",
-					"tricky": "# Host = \"x\" { ${ %{ } /* \\"}[ev.Str("k")] + "\n"
-				if ev.Str("k") == "blank" {
-					text = "\n"
-				}
-			case "end":
-			default:
-				panic("harness-error: document item " + ev.Str("e"))
-			}
-			sb.WriteString(text)
-			line += strings.Count(text, "\n")
-			tr.Emit(map[string]any{"ev": "Item", "o": o})
-		}
-		src := sb.String()
+		src := renderProfile(beh, func(o map[string]any) { tr.Emit(map[string]any{"ev": "Item", "o": o}) })
 		path := filepath.Join(dir, fmt.Sprintf("p%d.yaotl", bi))
 		must(os.WriteFile(path, []byte(src), 0o644))
 		p := profile.NewProfile()
